@@ -83,3 +83,20 @@ pub fn add_odd(existing: &str) -> String {
     v["odd"] = serde_json::Value::Array(odd);
     serde_json::to_string_pretty(&v).unwrap()
 }
+
+/// Append valid keys with public exponents other than 65537 (3, 17, 257) to both pools:
+/// "any honestly generated key" is not only F4 keys.
+pub fn add_exponents(existing: &str) -> String {
+    use rsa::pkcs1::EncodeRsaPrivateKey;
+    use rsa::traits::PublicKeyParts;
+    let mut v: serde_json::Value = serde_json::from_str(existing).unwrap();
+    let mut rng = rsa::rand_core::OsRng;
+    for (name, bits) in [("rsa2048", 2048usize), ("rsa4096", 4096)] {
+        for e in [3u32, 17, 257] {
+            let k = rsa::RsaPrivateKey::new_with_exp(&mut rng, bits, &rsa::BigUint::from(e)).unwrap();
+            assert_eq!(k.n().bits(), bits);
+            v[name].as_array_mut().unwrap().push(serde_json::Value::String(hex::encode(k.to_pkcs1_der().unwrap().as_bytes())));
+        }
+    }
+    serde_json::to_string_pretty(&v).unwrap()
+}
